@@ -16,7 +16,9 @@ pub struct Utf8Error { pub c: u8 }
 pub mod str {
     #[allow(unused_imports)] use super::*;
     #[verifier::external_body]
-    pub fn from_utf8(b: &[u8]) -> (r: Result<&str, Utf8Error>) { unimplemented!() }
+    pub fn from_utf8(b: &[u8]) -> (r: Result<&str, Utf8Error>)
+        ensures r matches Ok(s) ==> s.sl_view() == b@
+    { unimplemented!() }
 }
 #[verifier::external_body]
 pub fn vf_str_eq(a: &str, b: &str) -> (r: bool) { unimplemented!() }
